@@ -103,6 +103,8 @@ class CallMixin:
                         out.append((s2, SFunc(None, self_val=o, builtin='str.' + attr)))
                 return out
             raise ToolLimit('str.%s' % attr)
+        if isinstance(o, SList) and attr == 'append':
+            return [(st, SFunc(None, self_val=o, builtin='list.append'))]
         if isinstance(o, SModule):
             return [(st, self.module_attr(o, attr))]
         if isinstance(o, SExc):
@@ -173,6 +175,9 @@ class CallMixin:
                         pos = pos + sv.items
                     else:
                         raise ToolLimit('*args of %r' % (sv,))
+                if isinstance(f, SFunc) and f.builtin == 'list.append' and isinstance(e.func, ast.Attribute) \
+                        and isinstance(e.func.value, ast.Name):
+                    f.target_name = e.func.value.id
                 out.extend(self.call_value(f, pos, kws, s2, e, fx))
         return out
 
@@ -322,6 +327,26 @@ class CallMixin:
         for s, seq in self.as_iterable(st, pos[0]):
             out.append((s, seq))
         return out
+
+    def bi_list_append(self, f, pos, kws, st, ln, e=None):
+        old, x = f.self_val, pos[0]
+        if old.concrete is not None:
+            new = SList.of(old.concrete + [x])
+        else:
+            if not isinstance(x, SNode):
+                raise ToolLimit('append of %r to a symbolic list' % (x,))
+            n = old.length
+            g = self.W.fresh_fun('lst', L.I, Node)
+            i = z3.Int('i!ap%d' % self.W.counter)
+            st.assume(z3.ForAll([i], g(i) == z3.If(i == n, x.t, old.elem(i).t), patterns=[g(i)]))
+            new = SList(n + 1, lambda k, g=g: SNode(g(k)), desc=old.desc + '+1')
+            new.fun = g
+            new.elemkind = 'node'
+        tgt = getattr(f, 'target_name', None)
+        if tgt is None:
+            raise ToolLimit('append on a list that is not a local variable')
+        st.locals[tgt] = new
+        return [(st, NONE)]
 
     def bi_tuple(self, f, pos, kws, st, ln):
         return self.bi_list(f, pos, kws, st, ln)
